@@ -76,7 +76,7 @@ class Terms:
     def of_local(self, l, depth=0):
         if l in self.memo:
             return self.memo[l]
-        if depth > 25:
+        if depth > 80:
             return ("deep",)
         ds = self.defs.get(l, [])
         if l <= self.body.arg_count and l != 0:
@@ -104,7 +104,11 @@ class Terms:
             dn = declared(t)
             if is_try_branch(t):
                 return ("try", self.of_operand(t.args[0], depth + 1))
-            if nm.endswith("hint::must_use") or nm.endswith("Into::into") or nm.endswith("From::from"):
+            if nm.endswith("hint::must_use"):
+                return self.of_operand(t.args[0], depth + 1)
+            if (dn or "").endswith(("Into::into", "From::from")) and t.dest.ty.is_int() and t.args and t.args[0].ty.is_int():
+                return ("cast", t.dest.ty.s, self.of_operand(t.args[0], depth + 1), t.args[0].ty.s)
+            if (dn or "").endswith(("Into::into", "From::from")):
                 return self.of_operand(t.args[0], depth + 1)
             return ("call", dn or nm, tuple(self.of_operand(a, depth + 1) for a in t.args), bb)
         s = node
@@ -117,10 +121,10 @@ class Terms:
         if k == "use":
             return self.of_operand(rv.op, depth + 1)
         if k == "cast":
-            return ("cast", rv.ty.s, self.of_operand(rv.op, depth + 1))
+            return ("cast", rv.ty.s, self.of_operand(rv.op, depth + 1), rv.op.ty.s)
         if k == "binop":
             return (rv.binop.replace("WithOverflow", ""), self.of_operand(rv.a, depth + 1),
-                    self.of_operand(rv.b, depth + 1))
+                    self.of_operand(rv.b, depth + 1), rv.a.ty.s)
         if k == "unop":
             return (rv.unop, self.of_operand(rv.a, depth + 1))
         if k == "ref":
@@ -211,7 +215,9 @@ def term_has(t, pred):
 def show(t, depth=0):
     if not isinstance(t, tuple):
         return str(t)
-    if depth > 6:
+    if t and not isinstance(t[0], str):
+        return ",".join(show(x, depth + 1) for x in t)
+    if depth > 8:
         return "…"
     if not t:
         return "()"
@@ -222,6 +228,10 @@ def show(t, depth=0):
         return "arg:%s" % (t[2] or t[1])
     if h == "call":
         return "%s(%s)" % (t[1].split("::")[-1], ",".join(show(a, depth + 1) for a in t[2]))
+    if h == "cast":
+        return "%s as %s" % (show(t[2], depth + 1), t[1])
+    if h in ("Add", "Sub", "Mul", "Shl", "Shr", "BitAnd", "BitOr", "BitXor", "Eq", "Ne", "Lt", "Le", "Gt", "Ge", "Div", "Rem"):
+        return "%s(%s,%s)" % (h, show(t[1], depth + 1), show(t[2], depth + 1))
     return "%s(%s)" % (h, ",".join(show(x, depth + 1) for x in t[1:]))
 
 
